@@ -312,4 +312,37 @@ PROPS["C07"] = dict(
     parts=[dict(engine="e1", harness="c07_deterministic")],
 )
 
+PROPS["C10"] = dict(
+    level="model_checking",
+    rule="concurrent half (c10_morphgraph): 3 for_each iterations, each a "
+         "cautious mutation program of <= 2 operations (addEdge with "
+         "duplicate check, addMultiEdge, removeEdge via findEdge, removeNode, "
+         "addNode, edge-data update) over overlapping endpoints of a 3-4 "
+         "node MorphGraph, default conflict flags, five flavours (directed, "
+         "directed in/out, undirected, sorted directed, sorted undirected), "
+         "2-3 threads, fake [2] [1,1] [2,1] machines. Executions = all "
+         "schedules with <= bound deviations. Oracle on each: the final "
+         "structural dump (through the public iteration API) equals the SAME "
+         "implementation replaying the committed programs serially in "
+         "commit-log order on a fresh graph; no edge to a removed node; "
+         "reverse entries exist and carry equal data multisets; sorted "
+         "flavours sorted; non-trivial = distinct trace hash among executions "
+         "with >= 1 deviation",
+    bound_note="per-cell bound_completed in coverage.cells",
+    assumptions=E1_ASSUME,
+    deadline=dict(quick=200, thorough=3000),
+    technique="stateless model checking of the implementation: exhaustive "
+              "deviation-bounded schedule enumeration (gsched) with a "
+              "serial-replay oracle on the same implementation",
+    level_text="every schedule with <= d deviations (d=1 quick, 1-2 "
+               "thorough) of concurrent mutation programs on the real "
+               "MorphGraph; serialisability against the implementation's own "
+               "serial semantics and structural invariants on each",
+    level_note="bounded: <=3 threads, 3 iterations x <=2 operations, <=4 "
+               "nodes; no-lockable flavour is sequential-only (no conflict "
+               "detection to test)",
+    design_ref="DESIGN.md 2, 7/C10",
+    parts=[dict(engine="e1", harness="c10_morphgraph")],
+)
+
 NOT_APPLICABLE = {}
